@@ -5,6 +5,7 @@ import (
 	"fmt"
 
 	"github.com/z7zmey/php-parser/pkg/ast"
+	"github.com/z7zmey/php-parser/pkg/version"
 	"github.com/z7zmey/php-parser/verifmc/astx"
 	"github.com/z7zmey/php-parser/verifmc/core"
 	"github.com/z7zmey/php-parser/verifmc/corpus"
@@ -71,6 +72,22 @@ func init() {
 					c12Tree(c, mkCase(src, f.V, why))
 				}
 			})
+			// E-pairs: a value left on the yacc stack by an earlier statement and picked up by a later one puts the
+			// same node object into two places of the tree
+			lp := 1
+			if c.Thorough() {
+				lp = 2
+			}
+			forPairs(c, f, lp, 1, func(p, s *corpus.Item, src string) {
+				c12Tree(c, mkCase(src, f.V, "pair of corpus programs"))
+			})
+		}
+		for _, src := range chainPrograms(c) {
+			for _, v := range []*version.Version{drive.V74, drive.V56} {
+				if c.Next() {
+					c12Tree(c, mkCase(src, v, "postfix chain"))
+				}
+			}
 		}
 		for _, src := range corpus.Specials() {
 			if c.Next() {
